@@ -76,9 +76,10 @@ type worldJ struct {
 	ReadTimeoutMs int            `json:"readTimeoutMs,omitempty"`
 	BufferSize    int64          `json:"bufferSize,omitempty"`
 	Probe         bool           `json:"probe,omitempty"`
-	AllViews      bool           `json:"allViews,omitempty"`  // reference images for every directory of the tree, both modes
-	ReadChunk     int            `json:"readChunk,omitempty"` // deliver request bytes to the server in pieces of at most this size
-	Quiesce       bool           `json:"quiesce,omitempty"`   // after all connections ended: report leftover goroutines / handles
+	AllViews      bool           `json:"allViews,omitempty"`     // reference images for every directory of the tree, both modes
+	ReadChunk     int            `json:"readChunk,omitempty"`    // deliver request bytes to the server in pieces of at most this size
+	Quiesce       bool           `json:"quiesce,omitempty"`      // after all connections ended: report leftover goroutines / handles
+	WriteDelayUs  int            `json:"writeDelayUs,omitempty"` // every server-side Write blocks this long (slow peer)
 	LogOps        bool           `json:"logOps,omitempty"`
 }
 
@@ -147,6 +148,14 @@ func (env *sessionEnv) snap() ([]nodeJ, string, error) {
 		}
 	}
 	return nodes, hex.EncodeToString(h.Sum(nil)), nil
+}
+
+func mutatingOp(op string) bool {
+	switch op {
+	case "CREATE_FILE", "WRITE_FILE", "DELETE_FILE", "MKDIR", "RMDIR", "STAT_FILE", "GET_DIR_SIZE":
+		return true // (STAT / GET_DIR_SIZE are cheap check points: the driver ends every session with them)
+	}
+	return false
 }
 
 func equalSegs(a, b []string) bool {
@@ -580,6 +589,7 @@ func (env *sessionEnv) connect(cj *connJ) *memConn {
 	}
 	c := newMemConn(cj.ID, remote)
 	c.readChunk = env.wj.ReadChunk
+	c.writeDelay = time.Duration(env.wj.WriteDelayUs) * time.Microsecond
 	env.ln.Dial(c)
 	c.WaitQuiescent(10 * time.Second)
 	env.em.emit(map[string]interface{}{"ev": "Connect", "c": cj.ID, "arms": c.TakeArms()})
@@ -851,7 +861,15 @@ func (env *sessionEnv) exchange(c *memConn, cj *connJ, op string, req map[string
 	if stalled {
 		ev["cutAfterMs"], ev["deadlineHit"] = c.CutAfterMs()
 	}
-	nodes, fp, err := env.snap()
+	var nodes []nodeJ
+	var fp string
+	var err error
+	if env.priv != nil && !mutatingOp(op) && !closed {
+		// concurrent mode: the tree is re-read after mutating requests and at the end of the connection only
+		fp = env.lastFP
+	} else {
+		nodes, fp, err = env.snap()
+	}
 	if err != nil {
 		ev["mut"] = true
 		ev["tree"] = []nodeJ{}
